@@ -649,7 +649,7 @@ def euler2SO3(euler: torch.Tensor):
     if not torch.is_tensor(euler):
         euler = torch.tensor(euler)
     assert euler.shape[-1] == 3
-    shape, euler = euler.shape, euler.view(-1, 3)
+    shape, euler = euler.shape, euler.reshape(-1, 3)
     roll, pitch, yaw = euler[:, 0], euler[:, 1], euler[:, 2]
     cy, sy = (yaw * 0.5).cos(), (yaw * 0.5).sin()
     cp, sp = (pitch * 0.5).cos(), (pitch * 0.5).sin()
